@@ -72,6 +72,20 @@ class Scenario:
         finally:
             shutil.rmtree(proj, ignore_errors=True)
 
+    def run_sub_redo(self, proj, runid, argv, timeout=120):
+        """run one of the real binaries inside an existing project directory *as a sub-redo of run `runid`* (the environment a
+        .do script's redo-ifchange sees) -> (rc, output)"""
+        self.build()
+        e = {k: v for k, v in os.environ.items() if not (k.startswith('REDO') or k in ('MAKEFLAGS', 'DO_BUILT'))}
+        e.update({'PATH': self.bindir + ':' + e.get('PATH', '/usr/bin:/bin'), 'RUST_BACKTRACE': '0', 'REDO': '1', 'REDO_BASE': proj,
+                  'REDO_STARTDIR': proj, 'REDO_PWD': '', 'REDO_TARGET': '', 'REDO_RUNID': str(runid), 'REDO_LOG': '0', 'REDO_DEPTH': ''})
+        try:
+            r = subprocess.run(argv, cwd=proj, env=e, stdout=subprocess.PIPE, stderr=subprocess.STDOUT, timeout=timeout,
+                               stdin=subprocess.DEVNULL)
+            return r.returncode, r.stdout.decode('utf-8', 'replace')
+        except subprocess.TimeoutExpired as ex:
+            return 124, (ex.stdout or b'').decode('utf-8', 'replace') + '\n[timed out]'
+
     def cleanup(self):
         shutil.rmtree(self.src, ignore_errors=True)
         shutil.rmtree(self.bindir, ignore_errors=True)
